@@ -217,7 +217,9 @@ def main(pid, tier):
             rc = EXIT_HARNESS
 
         solver_time = round(sum(r["time"] for _, r in results), 2)
-        n_nontrivial = sum(1 for ob, r in discharged if not ob.get("trivial") and r.get("by") != "normal-form")
+        n_solver = sum(1 for ob, r in discharged if not ob.get("trivial") and r.get("by") != "normal-form")
+        n_nontrivial = n_solver + twins_ok
+        total_paths = sum((i.get("paths") or 0) for i in build_info.values() if isinstance(i.get("paths"), int))
         samples = []
         for ob, res in (discharged[:3] + [x[:2] for x in known_hits[:2]] + inconclusive[:2]):
             samples.append({"obligation": ob["name"], "desc": ob.get("desc", ""), "status": res["status"],
@@ -228,10 +230,15 @@ def main(pid, tier):
             "coverage": {
                 "evaluations": len(results),
                 "distinct_nontrivial": n_nontrivial,
-                "rule": "one evaluation = one SMT query (validity obligation or vacuity twin) generated from the "
-                        "current /repo source by symbolic execution; non-trivial = a validity obligation whose negated "
-                        "goal did not normalise to false syntactically and that the solver answered unsat; "
-                        "obligation names are unique",
+                "rule": "one evaluation = one obligation (validity obligation or vacuity/reachability twin) generated from the "
+                        "current /repo source by symbolic execution; non-trivial = an obligation decided by an actual solver run: "
+                        "a validity obligation whose negated goal did not normalise to false syntactically and that the solver "
+                        "answered unsat, or a twin that the solver answered sat; obligation names are unique",
+                "states": max(1, total_paths),
+                "transitions": max(1, len(results)),
+                "traces_validated_against_impl": replays_done,
+                "states_meaning": "states = feasible symbolic paths explored through the repository functions (summed over groups); "
+                                  "transitions = obligations evaluated; traces_validated = counterexamples replayed on the real code",
                 "samples": samples,
                 "obligations": sum(1 for ob, _ in results if ob["expect"] == "unsat"),
                 "discharged": len(discharged),
@@ -262,7 +269,7 @@ def main(pid, tier):
             ev["coverage"].update(h.evidence_extra(tier, results))
         os.makedirs(os.path.join(ROOT, "evidence"), exist_ok=True)
         json.dump(ev, open(os.path.join(ROOT, "evidence", f"{pid}.json"), "w"), indent=1, default=str)
-        print(f"{pid} {tier}: {len(discharged)} discharged ({n_nontrivial} by solver), {len(inconclusive)} inconclusive, "
+        print(f"{pid} {tier}: {len(discharged)} discharged ({n_solver} by solver), {len(inconclusive)} inconclusive, "
               f"{twins_ok} twins sat, {len(known_hits)} known-finding hits, {len(violations)} violations, "
               f"{len(harness_errors)} harness errors; solver {solver_time}s, wall {ev['wall_s']}s")
         for ob, res in inconclusive:
